@@ -15,11 +15,12 @@ from .c02 import after_list_removal  # noqa: F401
 from .c07 import blocks_of
 
 ID = "C06"
+VARY_KNOBS = True  # module-level tuning constants of the library are lowered in some runs (sim.core.lower_tuning_constants)
 VARY_ARGFORM = True  # integer call arguments also arrive as numpy integer scalars
 GUARD_KERNELS = True
 NAMES = ["collapse", "bandpass", "read_chan", "dedisperse", "compute_stats", "compute_stats_basic"]
 SHRINK_LISTS = ("ops", "faults", "pre", ("files", "nsamps"))
-SHRINK_SIMPLE = {"earlier": None, "argform": "int"}
+SHRINK_SIMPLE = {"knobs": None, "earlier": None, "argform": "int"}
 SHRINK_MIN = {"nchans": 1, "nbits": 1, "gulp": 1}
 
 
